@@ -51,7 +51,7 @@ Proof.
   { subst r. unfold header_range.
     destruct (negb (match hdr with [] => true | _ => false end) && is_prefix (B "bytes=") hdr); [|right; reflexivity].
     destruct (split_char ","%char (skipn 6 hdr)) as [|f l]; [right; reflexivity|].
-    unfold of_string. destruct (match_range_re (trimmed f)) as [[d1 d2]|]; [|right; reflexivity].
+    unfold of_string. destruct (match_range_re (qs_trim f)) as [[d1 d2]|]; [|right; reflexivity].
     destruct d1, d2; try (right; reflexivity);
       repeat match goal with |- context [to_int_digits ?x] => destruct (to_int_digits x) as [? []] end;
       cbn; try (right; reflexivity); left; split; try reflexivity; subst size; lia. }
@@ -66,7 +66,7 @@ Proof.
     exfalso. subst r. unfold header_range in *.
     destruct (negb (match hdr with [] => true | _ => false end) && is_prefix (B "bytes=") hdr); [|discriminate].
     destruct (split_char ","%char (skipn 6 hdr)) as [|f l]; [discriminate|].
-    unfold of_string in *. destruct (match_range_re (trimmed f)) as [[d1 d2]|]; [|discriminate].
+    unfold of_string in *. destruct (match_range_re (qs_trim f)) as [[d1 d2]|]; [|discriminate].
     destruct d1, d2; try discriminate;
       repeat match goal with H : context [to_int_digits ?x] |- _ => destruct (to_int_digits x) as [? []] end;
       cbn in *; try discriminate; subst size; lia.
